@@ -68,6 +68,12 @@ theorem umul_eq (z x y : WDec) (xIsY : Bool) (t : Thr) (hx : I32 x.exp) (hy : I3
     W.umul z x y xIsY t = umulG z x y xIsY t :=
   GenKernels.umul_eq z x y xIsY t hx hy hs
 
+/-- `umul_eq` for operands with words below the base and thresholds ≥ 1 (its hypothesis discharged by `mul_spec` / `sqr_spec`). -/
+theorem umul_eq_wf (z x y : WDec) (xIsY : Bool) (t : Thr) (hx : I32 x.exp) (hy : I32 y.exp)
+    (hwx : L0.WF x.mant) (hwy : L0.WF y.mant) (hk : 1 ≤ t.kmul) (hks : 1 ≤ t.ksqr) :
+    W.umul z x y xIsY t = umulG z x y xIsY t :=
+  GenKernels.umul_eq_wf z x y xIsY t hx hy hwx hwy hk hks
+
 theorem uquo_eq (z x y : WDec) (t : Thr) (hp : z.prec < 4294967296) (hx : I32 x.exp) (hy : I32 y.exp)
     (hlx : Len x.mant.length) (hly : Len y.mant.length) (hla : Len (xadjOf z x y).length)
     (hlq : ∀ q r, divFull t.drec t.kmul (xadjOf z x y) y.mant = .ok (q, r) → Len q.length)
@@ -223,6 +229,49 @@ example : I32 xEx.exp ∧ I32 yEx.exp ∧ Len xEx.mant.length ∧ Len yEx.mant.l
   refine ⟨by unfold I32 xEx; decide, by unfold I32 yEx; decide, by unfold Len xEx; decide, by unfold Len yEx; decide, ?_, ?_⟩ <;>
     (intro w hw; simp [xEx, yEx] at hw; omega)
 
+/-- every hypothesis of the four kernel theorems is met by the example operands (evaluated by `decide`) -/
+example : W.uadd zEx xEx yEx = uaddG zEx xEx yEx false true :=
+  uadd_eq zEx xEx yEx false true (by unfold I32 xEx; decide) (by unfold I32 yEx; decide) (by unfold Len xEx; decide)
+    (by unfold Len yEx; decide) (by unfold Len; decide)
+    (by
+      intro m' s h
+      have e : W.dnorm (uaddMant xEx yEx) = .ok ([2500000000000000000, 1234667790123456789], 0) := by decide
+      rw [e] at h; cases h; decide)
+
+example : W.usub zEx xEx yEx = usubG zEx xEx yEx true false :=
+  usub_eq zEx xEx yEx true false (by unfold I32 xEx; decide) (by unfold I32 yEx; decide) (by unfold Len xEx; decide)
+    (by unfold Len yEx; decide)
+    (by
+      intro m h
+      have e : usubMant xEx yEx = .ok [2500000000000000000, 1234467990123456789] := by decide
+      rw [e] at h; cases h; unfold Len; decide)
+    (by
+      intro m m' s h hd
+      have e : usubMant xEx yEx = .ok [2500000000000000000, 1234467990123456789] := by decide
+      rw [e] at h; cases h
+      have e2 : W.dnorm [2500000000000000000, 1234467990123456789] = .ok ([2500000000000000000, 1234467990123456789], 0) := by decide
+      rw [e2] at hd; cases hd; decide)
+
+example : W.umul zEx xEx yEx false {} = umulG zEx xEx yEx false {} :=
+  umul_eq_wf zEx xEx yEx false {} (by unfold I32 xEx; decide) (by unfold I32 yEx; decide)
+    (by intro w hw; simp [xEx] at hw; omega) (by intro w hw; simp [yEx] at hw; omega) (by decide) (by decide)
+
+example : W.uquo zEx xEx yEx {} = uquoG zEx xEx yEx {} :=
+  uquo_eq zEx xEx yEx {} (by decide) (by unfold I32 xEx; decide) (by unfold I32 yEx; decide) (by unfold Len xEx; decide)
+    (by unfold Len yEx; decide) (by unfold Len; decide)
+    (by
+      intro q r h
+      have e : (divFull ({} : Thr).drec ({} : Thr).kmul (xadjOf zEx xEx yEx) yEx.mant).toOption.map (fun p => p.1.length) = some 2 := by decide
+      rw [h] at e
+      simp [Except.toOption] at e
+      unfold Len; omega)
+    (by
+      intro q r m' s h hd
+      have e : (divFull ({} : Thr).drec ({} : Thr).kmul (xadjOf zEx xEx yEx) yEx.mant).toOption.map (fun p => (W.dnorm p.1).toOption.map (fun t => t.2)) = some (some 0) := by decide
+      rw [h] at e
+      simp [Except.toOption, hd] at e
+      omega)
+
 private def same (a b : Except String WDec) : Bool := toString (repr a) == toString (repr b)
 
 -- executed at build time (tests, not theorems): the re-assembled kernels return what the model returns
@@ -238,6 +287,7 @@ private def same (a b : Except String WDec) : Bool := toString (repr a) == toStr
 #print axioms uadd_eq_wf
 #print axioms usub_eq
 #print axioms umul_eq
+#print axioms umul_eq_wf
 #print axioms uquo_eq
 #print axioms dnorm_shift_le
 #print axioms int64_eq
